@@ -792,6 +792,10 @@ def group_by(table: Table, *cols: Col | ColName | str, add=False) -> Pipeable:
 
     for col in cols:
         if isinstance(col, Col) and col._uuid not in table._cache.uuid_to_name:
+            if col._uuid not in table._cache.cols:
+                raise ColumnNotFoundError(
+                    f"column `{col.ast_repr()}` does not exist in table `{table._ast.short_name()}`"
+                )
             raise ValueError(f"cannot group by non-selected column `{col.ast_repr()}`")
 
     new = copy.copy(table)
